@@ -20,6 +20,7 @@
 #include <algorithm>
 #include <cmath>
 #include <iostream>
+#include <map>
 #include <memory>
 
 using Traits = Opm::TwoPhaseMaterialTraits<double, 0, 1>;
@@ -367,6 +368,136 @@ static void corrKillough(vh::Rng& r, vh::Sink& sink, int cases)
     }
 }
 
+
+// ------------------------------------------------------------------------------------------
+// third round: the complete hysteresis object (relperm models -1..4, Killough Pc hysteresis, the three two-phase
+// system types, update(pcSw, krwSw, krnSw) with independent saturations)
+
+static std::shared_ptr<Opm::EclHysteresisConfig> fullCfg(bool enabled, int model, double modParam, double curvature, const std::string& flag)
+{
+    auto cfg = std::make_shared<Opm::EclHysteresisConfig>();
+    if (!enabled) return cfg;
+    const std::string txt = "RUNSPEC\nOIL\nWATER\nGAS\nSATOPTS\n HYSTER /\nPROPS\nEHYSTR\n " + num(curvature) + " " + std::to_string(model) + " 1.0 " + num(modParam) + " " + flag + " /\n";
+    Opm::Parser parser;
+    const auto deck = parser.parseString(txt);
+    const Opm::Runspec rs(deck);
+    cfg->initFromState(rs);
+    return cfg;
+}
+
+// an EclEpsScalingPointsInfo consistent with the scaled points of a two-phase law (optionally perturbed)
+static Opm::EclEpsScalingPointsInfo<double> infoFor(vh::Rng& r, int sys, const Points& s, bool noisy)
+{
+    Opm::EclEpsScalingPointsInfo<double> in{};
+    const double sncr = 1.0 - s.v[8], snmax = 1.0 - s.v[6], swcr = s.v[3], swmax = s.v[5];
+    const double w = 0.02 + 0.1 * r.unit();
+    in.Swl = 0.05; in.Sgl = 0.0; in.Swcr = 0.1; in.Sgcr = 0.05; in.Sowcr = 0.1; in.Sogcr = 0.1; in.Swu = 1.0; in.Sgu = 0.9;
+    in.maxPcow = s.v[9]; in.maxPcgo = s.v[9];
+    if (sys == 0) { in.Sgl = r.coin(3, 4) ? 0.0 : 0.03 * r.unit(); in.Swl = s.v[6] - in.Sgl; in.Sowcr = sncr; in.Swcr = swcr; in.Swu = swmax; in.maxPcgo = 1e4 * r.unit(); }
+    else if (sys == 1) { in.Swl = w; in.Sgcr = sncr - w; in.Sgu = snmax - w; in.Sogcr = swcr; in.Sgl = 1.0 - swmax - w; in.maxPcow = 1e4 * r.unit(); }
+    else { in.Sgcr = sncr; in.Sgu = snmax; in.Swcr = swcr; in.Swu = swmax; in.Sgl = 1.0 - swmax; in.Swl = s.v[0]; in.maxPcow = 0.6 * s.v[9]; in.maxPcgo = s.v[9] - in.maxPcow; }
+    if (noisy) {
+        double* f[] = {&in.Swl, &in.Sgl, &in.Swcr, &in.Sgcr, &in.Sowcr, &in.Sogcr, &in.Swu, &in.Sgu};
+        for (double* x : f) if (r.coin(1, 3)) *x = std::min(1.0, std::max(0.0, *x + 0.1 * (r.unit() - 0.5)));
+    }
+    return in;
+}
+static std::string infoStr(const Opm::EclEpsScalingPointsInfo<double>& in)
+{
+    return hxl({in.Swl, in.Sgl, in.Swcr, in.Sgcr, in.Sowcr, in.Sogcr, in.Swu, in.Sgu, in.maxPcow, in.maxPcgo});
+}
+
+struct Triple { double pc, krw, krn; };
+
+static std::vector<Triple> tripleHistory(vh::Rng& r, int n, int style, int coupling)
+{
+    std::vector<Triple> h;
+    std::vector<double> a = history(r, n, style), b = history(r, n, style), c = history(r, n, style);
+    if (r.coin(1, 3)) a[0] = 0.3 * r.unit();                        // a low first saturation: the "initial imbibition" branch
+    for (int i = 0; i < n; ++i) {
+        Triple t{a[i], a[i], a[i]};                                   // EclTwoPhaseMaterial: the same saturation three times
+        if (coupling == 1) t.krn = std::min(1.0, a[i] + 0.3 * b[i] * (1 - a[i]));   // three-phase oil-water: krnSw = 1 - So >= Sw
+        if (coupling == 2) { t.krw = b[i]; t.krn = c[i]; }
+        h.push_back(t);
+    }
+    if (n > 2 && r.coin(1, 4)) h[n - 1] = h[n - 2];                 // a repeated step
+    return h;
+}
+
+struct FullSetup {
+    int sys, model; bool enabled; std::string flag, bits; double modParam, curv;
+    Table tD, tI; Points uD, sD, uI, sI;
+    Opm::EclEpsScalingPointsInfo<double> infoD, infoI;
+    std::shared_ptr<Opm::EclHysteresisConfig> cfg;
+    Hyst::Params P;
+};
+
+static const Opm::EclTwoPhaseSystemType SYS[3] = {Opm::EclTwoPhaseSystemType::OilWater, Opm::EclTwoPhaseSystemType::GasOil, Opm::EclTwoPhaseSystemType::GasWater};
+
+static void makeFull(vh::Rng& r, FullSetup& F, int model, const std::string& flag, bool strict, bool same, bool scaling, bool noisy, bool enabled = true)
+{
+    F.sys = r.range(0, 2); F.model = model; F.flag = flag; F.enabled = enabled;
+    F.modParam = r.coin(1, 4) ? 0.0 : 0.3 * r.unit(); F.curv = r.coin(1, 6) ? 0.1 : 0.02 + 0.5 * r.unit();
+    F.tD = makeTable(r, strict); F.tI = same ? F.tD : makeTable(r, strict);
+    F.bits = scaling ? randomCfg(r) : std::string("00000000");
+    F.uD = unscaledOf(r, F.tD); F.uI = unscaledOf(r, F.tI);
+    F.sD = scaling ? perturb(r, F.uD, 1) : F.uD;
+    F.sI = same ? F.sD : (scaling ? perturb(r, F.uI, 1) : F.uI);
+    F.cfg = fullCfg(enabled, model, F.modParam, F.curv, flag);
+    F.infoD = infoFor(r, F.sys, F.sD, noisy);
+    F.infoI = same && !noisy ? F.infoD : infoFor(r, F.sys, F.sI, noisy);
+    if (!same && F.sys == 1) { const double dw = F.infoI.Swl - F.infoD.Swl; F.infoI.Swl -= dw; F.infoI.Sgcr += dw; F.infoI.Sgu += dw; F.infoI.Sgl += dw; }
+    F.P = Hyst::Params();
+    F.P.setConfig(F.cfg);
+    F.P.setDrainageParams(epsParams(F.bits, F.tD, F.uD, F.sD), F.infoD, SYS[F.sys]);
+    F.P.setImbibitionParams(epsParams(F.bits, F.tI, F.uI, F.sI), F.infoI, SYS[F.sys]);
+    F.P.finalize();
+}
+
+static std::string fullState(const Hyst::Params& P, bool changed, const std::vector<double>& probes)
+{
+    std::string a = hx(P.pcSwMdc()) + "/" + hx(P.pcSwMic()) + "/" + (P.initialImb() ? "1" : "0") + "/" + hx(P.krnSwMdc()) + "/" + hx(P.krwSwMdc()) + "/" +
+                    hx(P.deltaSwImbKrn()) + "/" + hx(P.Sncrt()) + "/" + hx(P.Swcrt()) + "/" + hx(P.KrwdHy()) + "/" + hx(P.Krwd_sncrt()) + "/" + hx(P.krnWght()) + "/" + (changed ? "1" : "0");
+    for (double q : probes) a += "/" + hx(Hyst::twoPhaseSatKrw(P, q)) + ":" + hx(Hyst::twoPhaseSatKrn(P, q)) + ":" + hx(Hyst::twoPhaseSatPcnw(P, q));
+    return a;
+}
+
+static void corrHystFull(vh::Rng& r, vh::Sink& sink, int cases)
+{
+    static const char* FLAGS[3] = {"KR", "PC", "BOTH"};
+    static const char* SYSN[3] = {"ow", "go", "gw"};
+    for (int c = 0; c < cases; ++c) {
+        FullSetup F;
+        const int model = r.range(0, 4);
+        const std::string flag = FLAGS[r.range(0, 2)];
+        const bool enabled = !r.coin(1, 12);
+        const bool same = r.coin(1, 5), scaling = r.coin(1, 3), noisy = r.coin(1, 4);
+        makeFull(r, F, model, flag, r.coin(), same, scaling, noisy, enabled);
+        const int style = r.range(0, 2), coupling = r.range(0, 2);
+        std::vector<Triple> h = tripleHistory(r, r.range(1, 16), style, coupling);
+        std::vector<double> probes;
+        for (int k = 0; k < 4; ++k) probes.push_back(r.unit());
+        probes.push_back(h.back().krn); probes.push_back(std::min(1.0, h.back().pc + 0.05 * r.unit()));
+        const Hyst::Params& P = F.P;
+        std::string a = hx(P.Sncrd()) + "/" + hx(P.Sncri()) + "/" + hx(P.Snmaxd()) + "/" + hx(P.Swcrd()) + "/" + hx(P.Swcri()) + "/" + hx(P.Swmaxd()) + "/" + hx(P.Swmaxi()) + "/" +
+                        hx(P.krwdMax()) + "/" + hx(P.Krwd_sncri()) + "/" + hx(P.Krwi_snmax()) + "/" + hx(P.Krwi_snrmax()) + "/" + hx(P.pcWght()) + "/" + hx(P.curvatureCapPrs());
+        a += " " + fullState(F.P, false, probes);
+        std::string hs;
+        for (size_t k = 0; k < h.size(); ++k) {
+            const bool chg = F.P.update(h[k].pc, h[k].krw, h[k].krn);
+            a += " " + fullState(F.P, chg, probes);
+            if (k) hs += ';';
+            hs += hx(h[k].pc) + "," + hx(h[k].krw) + "," + hx(h[k].krn);
+        }
+        sink.emit(std::string("satfunc.hystfull ") + SYSN[F.sys] + " " + (enabled ? "1" : "0") + " " + std::to_string(F.cfg->krHysteresisModel()) + " " + std::to_string(F.cfg->pcHysteresisModel()) + " " +
+                  hxl({F.cfg->modParamTrapped(), F.cfg->curvatureCapPrs()}) + " " + F.bits + " " + tableStr(F.tD) + " " + ptsStr(F.uD) + " " + ptsStr(F.sD) + " " +
+                  tableStr(F.tI) + " " + ptsStr(F.uI) + " " + ptsStr(F.sI) + " " + infoStr(F.infoD) + " " + infoStr(F.infoI) + " " + hs + " " + hxl(probes), a);
+        sink.count(std::string("full.sys=") + SYSN[F.sys]); sink.count("full.krModel=" + std::to_string(F.cfg->krHysteresisModel()));
+        sink.count("full.pcModel=" + std::to_string(F.cfg->pcHysteresisModel())); sink.count("full.coupling=" + std::to_string(coupling));
+        sink.count(F.P.initialImb() ? "full.initialImb" : "full.initialDrainage"); sink.count(scaling ? "full.scaled" : "full.unscaled");
+    }
+}
+
 // ------------------------------------------------------------------------------------------
 // property mode
 
@@ -488,6 +619,140 @@ static void propAll(vh::Rng& r, vh::PropLog& log, int cases)
     }
 }
 
+// third round, property mode: the complete hysteresis object on the real code alone
+static std::map<std::string, long> g_keyCount;      // how often each statement of propFull was evaluated (written to prop_stats.json)
+
+static bool closeF(double a, double b, double rel, double abs0 = 0.0) { return std::isfinite(a) && std::isfinite(b) && close(a, b, rel, abs0); }
+
+static void propFull(vh::Rng& r, vh::PropLog& log, int cases)
+{
+    auto chk = [&](bool ok, const std::string& key, const std::string& detail) { log.ok(); ++g_keyCount[key]; if (!ok) log.fail(key, detail); };
+    static const char* FLAGS[3] = {"KR", "PC", "BOTH"};
+    static const char* SYSN[3] = {"ow", "go", "gw"};
+    for (int c = 0; c < cases; ++c) {
+        FullSetup F;
+        const int model = r.range(0, 4);
+        const std::string flag = FLAGS[r.range(0, 2)];
+        const bool same = r.coin(1, 3);
+        // tables with plateaus (non-zero critical saturations: with strictly monotone tables Sncrd = Sncri = 0 and Land's
+        // formula degenerates); for different curves prefer an imbibition critical saturation above the drainage one
+        for (int attempt = 0; attempt < 6; ++attempt) {
+            makeFull(r, F, model, flag, /*strict=*/r.coin(1, 4), same, /*scaling=*/false, /*noisy=*/false);
+            if (same || (1.0 - F.sI.v[8]) >= (1.0 - F.sD.v[8])) break;
+        }
+        const int krModel = F.cfg->krHysteresisModel(), pcModel = F.cfg->pcHysteresisModel();
+        const std::string tag = std::string(SYSN[F.sys]) + " kr=" + std::to_string(krModel) + " pc=" + std::to_string(pcModel) + (same ? " same" : " diff") + " ";
+        const Eps::Params drain = F.P.drainageParams(), imb = F.P.imbibitionParams();
+        // the end-points of the two curves as the (scaled) end-point infos give them for this two-phase system — used to
+        // decide where a statement applies, never taken from the object under test
+        const auto& iD = F.infoD; const auto& iI = F.infoI;
+        const double eSncrd = F.sys == 1 ? iD.Sgcr + iD.Swl : F.sys == 2 ? iD.Sgcr : iD.Sowcr;
+        const double eSncri = F.sys == 1 ? iI.Sgcr + iI.Swl : F.sys == 2 ? iI.Sgcr : iI.Sowcr;
+        const double eSnmaxd = F.sys == 1 ? iD.Sgu + iD.Swl : F.sys == 2 ? iD.Sgu : 1.0 - iD.Swl - iD.Sgl;
+        const bool landOk = eSncri >= eSncrd && eSncri + 1e-9 <= eSnmaxd;
+        const int coupling = r.range(0, 2);
+        std::vector<Triple> h = tripleHistory(r, r.range(2, 14), r.range(0, 2), coupling);
+        double mnKrn = F.P.krnSwMdc(), mxKrw = F.P.krwSwMdc(), mnPc = F.P.pcSwMdc();
+        const double maxD = Eps::twoPhaseSatKrn(drain, 0.0), maxI = Eps::twoPhaseSatKrn(imb, 0.0);
+        for (size_t k = 0; k < h.size(); ++k) {
+            const Triple& t = h[k];
+            const std::string at = tag + "step " + std::to_string(k) + " (" + num(t.pc) + "," + num(t.krw) + "," + num(t.krn) + ")";
+            F.P.update(t.pc, t.krw, t.krn);
+            // --- reversal bookkeeping: running minima / maximum
+            mnKrn = std::min(mnKrn, t.krn); mxKrw = std::max(mxKrw, t.krw); if (pcModel == 0) mnPc = std::min(mnPc, t.pc);
+            chk(F.P.krnSwMdc() == mnKrn, "full.minimum.krn", at + " krnSwMdc " + num(F.P.krnSwMdc()) + " want " + num(mnKrn));
+            chk(F.P.krwSwMdc() == mxKrw, "full.maximum.krw", at + " krwSwMdc " + num(F.P.krwSwMdc()) + " want " + num(mxKrw));
+            chk(F.P.pcSwMdc() == mnPc, "full.minimum.pc", at + " pcSwMdc " + num(F.P.pcSwMdc()) + " want " + num(mnPc));
+            // --- idempotent update: the same saturations again change nothing
+            {
+                Hyst::Params Q = F.P;
+                const bool chg = Q.update(t.pc, t.krw, t.krn);
+                bool sameVals = true;
+                for (int q = 0; q <= 20; ++q) {
+                    const double sw = q / 20.0;
+                    sameVals = sameVals && hx(Hyst::twoPhaseSatKrn(Q, sw)) == hx(Hyst::twoPhaseSatKrn(F.P, sw)) && hx(Hyst::twoPhaseSatKrw(Q, sw)) == hx(Hyst::twoPhaseSatKrw(F.P, sw)) &&
+                               hx(Hyst::twoPhaseSatPcnw(Q, sw)) == hx(Hyst::twoPhaseSatPcnw(F.P, sw));
+                }
+                chk(!chg && Q == F.P && Q.pcSwMdc() == F.P.pcSwMdc() && sameVals, "full.idempotent-update", at + " update returned " + std::to_string(chg));
+            }
+            // --- drainage until the first reversal (non-wetting relperm; exact)
+            for (int q = 0; q < 4; ++q) {
+                const double sw = mnKrn * r.unit();
+                chk(Hyst::twoPhaseSatKrn(F.P, sw) == Eps::twoPhaseSatKrn(drain, sw), "full.drainage-until-reversal.krn", at + " sw=" + num(sw));
+                if (!F.P.initialImb() && sw <= F.P.pcSwMdc())
+                    chk(Hyst::twoPhaseSatPcnw(F.P, sw) == Eps::twoPhaseSatPcnw(drain, sw), "full.drainage-until-reversal.pc", at + " sw=" + num(sw));
+                if (krModel == 4 || krModel == 0 || krModel == 2 || krModel < 0)
+                    chk(Hyst::twoPhaseSatKrw(F.P, sw) == Eps::twoPhaseSatKrw(drain, sw), "full.drainage-until-reversal.krw", at + " sw=" + num(sw));
+            }
+            // --- Killough: trapped saturation, scanning-curve end points and range
+            const bool killough = krModel >= 2 || pcModel == 0;
+            const double snhy = 1.0 - F.P.krnSwMdc();
+            if (killough && landOk && snhy <= eSnmaxd + 1e-12)
+                chk(F.P.Sncrt() >= eSncrd - 1e-15 && F.P.Sncrt() <= std::max(eSncrd, snhy) + 1e-12 && F.P.Sncrt() <= eSncri + 1e-9, "full.killough.trapped-bounds",
+                    at + " Sncrd " + num(eSncrd) + " Sncrt " + num(F.P.Sncrt()) + " Snhy " + num(snhy) + " Sncri " + num(eSncri));
+            if (krModel >= 2 && snhy - F.P.Sncrt() > 1e-6) {
+                const double m = F.P.krnSwMdc(), kd = Eps::twoPhaseSatKrn(drain, m);
+                for (int q = 0; q <= 40; ++q) {                                 // range [0, max], every saturation
+                    const double sw = q / 40.0, v = Hyst::twoPhaseSatKrn(F.P, sw);
+                    chk(v >= -1e-14 && v <= std::max(maxD, maxI) * (1 + 1e-12) + 1e-14, "full.killough.range", at + " sw=" + num(sw) + " krn " + num(v) + " max " + num(std::max(maxD, maxI)));
+                }
+                if (landOk && snhy <= eSnmaxd) {
+                    // the trapped end of the scanning curve: the imbibition curve at its critical saturation, i.e. zero
+                    const double end = Hyst::twoPhaseSatKrn(F.P, 1.0 - F.P.Sncrt());
+                    if (1.0 - F.P.Sncrt() > m) chk(std::fabs(end) <= 1e-9, "full.killough.scan-end", at + " krn(1-Sncrt) = " + num(end) + " Sncrt " + num(F.P.Sncrt()) + " Sncri " + num(F.P.Sncri()));
+                }
+                if (same && m > F.tD.sw.front() && m < 1.0) {              // identical curves meet at Snmaxd: continuous start
+                    const double above = Hyst::twoPhaseSatKrn(F.P, std::nextafter(m, 2.0));
+                    chk(closeF(above, kd, 1e-7, 1e-10), "full.killough.scan-continuous", at + " just above the reversal point " + num(above) + " drainage " + num(kd));
+                }
+                if (krModel == 4 && m < 1.0) {                                   // wetting phase: continuous start for any pair of curves
+                    const double above = Hyst::twoPhaseSatKrw(F.P, std::nextafter(m, 2.0)), kwd = Eps::twoPhaseSatKrw(drain, m);
+                    if (std::fabs(Eps::twoPhaseSatKrw(imb, 1.0 - eSncri) - Eps::twoPhaseSatKrw(imb, 1.0 - eSnmaxd)) > 1e-3)
+                        chk(closeF(above, kwd, 1e-7, 1e-10), "full.killough.krw-scan-continuous", at + " just above the reversal point " + num(above) + " drainage " + num(kwd));
+                }
+            }
+            // --- Killough capillary pressure (primary drainage branch)
+            if (pcModel == 0 && !F.P.initialImb()) {
+                const double m = F.P.pcSwMdc(), swma = 1.0 - F.P.Sncrt(), w = F.P.pcWght();
+                for (int q = 0; q <= 30; ++q) {
+                    const double sw = q / 30.0, v = Hyst::twoPhaseSatPcnw(F.P, sw);
+                    const double pcd = Eps::twoPhaseSatPcnw(drain, sw), pci = Eps::twoPhaseSatPcnw(imb, sw);
+                    if (sw <= m) chk(v == pcd, "full.pc.drainage", at + " sw=" + num(sw));
+                    else if (sw >= swma) chk(v == pci, "full.pc.imbibition-beyond-trapped", at + " sw=" + num(sw) + " pc " + num(v) + " imbibition " + num(pci) + " 1-Sncrt " + num(swma));
+                    else chk(v >= std::min(pcd, w * pci) - 1e-6 - 1e-12 * std::fabs(pcd) && v <= std::max(pcd, w * pci) + 1e-6 + 1e-12 * std::fabs(pcd), "full.pc.scanning-between",
+                             at + " sw=" + num(sw) + " pc " + num(v) + " drainage " + num(pcd) + " aligned imbibition " + num(w * pci));
+                }
+                if (m < swma && m < 1.0) {
+                    const double sw = std::nextafter(m, 2.0);
+                    chk(closeF(Hyst::twoPhaseSatPcnw(F.P, sw), Eps::twoPhaseSatPcnw(drain, sw), 1e-7, 1e-3), "full.pc.scan-continuous", at + " sw=" + num(sw));
+                    // the other end of the scanning curve (F = 1): the aligned imbibition curve at the trapped saturation
+                    const double se = std::nextafter(swma, 0.0);
+                    if (se > m && swma - m > 1e-3)
+                        chk(closeF(Hyst::twoPhaseSatPcnw(F.P, se), w * Eps::twoPhaseSatPcnw(imb, se), 1e-6, 1e-2), "full.pc.scan-end",
+                            at + " sw=" + num(se) + " pc " + num(Hyst::twoPhaseSatPcnw(F.P, se)) + " aligned imbibition " + num(w * Eps::twoPhaseSatPcnw(imb, se)));
+                }
+            }
+            if (F.sys != 0) chk(!F.P.initialImb(), "full.pc.initial-imbibition-only-oil-water", at);
+            // --- EHYSTR item 5 limits the hysteresis: flag PC leaves the relperms on the drainage curves, flag KR the capillary pressure
+            for (int q = 0; q <= 10; ++q) {
+                const double sw = q / 10.0;
+                if (flag == "PC")
+                    chk(Hyst::twoPhaseSatKrn(F.P, sw) == Eps::twoPhaseSatKrn(drain, sw) && Hyst::twoPhaseSatKrw(F.P, sw) == Eps::twoPhaseSatKrw(drain, sw),
+                        "full.flag-pc.relperm-not-hysteretic", at + " sw=" + num(sw) + " krn " + num(Hyst::twoPhaseSatKrn(F.P, sw)) + " drainage " + num(Eps::twoPhaseSatKrn(drain, sw)));
+                if (flag == "KR")
+                    chk(Hyst::twoPhaseSatPcnw(F.P, sw) == Eps::twoPhaseSatPcnw(drain, sw), "full.flag-kr.pc-not-hysteretic", at + " sw=" + num(sw));
+            }
+        }
+        // --- a repeated saturation history changes nothing
+        {
+            Hyst::Params Q = F.P;
+            bool any = false;
+            for (const Triple& t : h) any = Q.update(t.pc, t.krw, t.krn) || any;
+            chk(!any && Q == F.P && Q.pcSwMdc() == F.P.pcSwMdc(), "full.repeated-history", tag + std::to_string(h.size()) + " steps");
+        }
+    }
+}
+
 int main(int argc, char** argv)
 {
     if (argc < 5) { std::cerr << "usage: satfunc corr|prop <seed> <tier> <outdir>\n"; return 2; }
@@ -502,14 +767,19 @@ int main(int argc, char** argv)
         corrEps(r, sink, thorough ? 12000 : 2000);
         corrHyst(r, sink, thorough ? 8000 : 1500);
         corrKillough(r, sink, thorough ? 4000 : 600);
+        corrHystFull(r, sink, thorough ? 6000 : 1000);
         sink.writeStats(out + "/stats.json");
         return 0;
     }
     if (mode == "prop") {
         vh::PropLog log(out + "/prop.txt");
         propAll(r, log, thorough ? 6000 : 800);
+        propFull(r, log, thorough ? 6000 : 1000);
         std::ofstream st(out + "/prop_stats.json");
-        st << "{\"checked\": " << log.checked << ", \"failed\": " << log.failed << "}\n";
+        st << "{\"checked\": " << log.checked << ", \"failed\": " << log.failed << ", \"evaluated\": {";
+        bool first = true;
+        for (const auto& kv : g_keyCount) { st << (first ? "" : ", ") << "\"" << kv.first << "\": " << kv.second; first = false; }
+        st << "}}\n";
         return 0;
     }
     return 2;
